@@ -1,7 +1,7 @@
 """C04 - freezing preserves every value and makes it immutable (structural clauses)."""
 import re
 
-from kern import (ValueBearing, branch_edges, calls_by_name, callers, field_reads_of, locals_in, origins,
+from kern import (ValueBearing, branch_edges, calls_by_name, callers, field_reads_of, field_uses_of, locals_in, origins,
                   outcome_edges, short_fn, top_fn)
 
 DESCRIPTION = ("C04 clauses decided: R1 every FreezeBranded::freeze body consumes every value-bearing field (K3), the "
@@ -40,7 +40,7 @@ def r1_freeze(ctx, F, vb):
         n += 1
         traced = [p.split(":")[0].strip() for p in i["preds"]
                   if re.search(r":\s*(starlark::)?values::freeze_branded::FreezeBranded", p)]
-        reads = field_reads_of(F, f, adt.path, "_1", depth=3)
+        reads = field_uses_of(F, f, adt.path, "_1", depth=3)
         req = [fd for fd in adt.fields if vb.ty(fd["ty"], adt.crate, traced)]
         for fd in req:
             k = (fd["variant"] + "." + fd["name"]) if adt.kind == "Enum" else fd["name"]
@@ -222,6 +222,32 @@ def r2_list(ctx, F):
               "the frozen list's set_at no longer fails / writes content", fn=fs)
 
 
+def r2b_inplace(ctx, F):
+    """in-place operators (`+=` on lists, `|=` on dicts) succeed on the mutable-type arm only after the checked
+    mutable downcast succeeded (it is the only place that rejects frozen values and values under iteration)"""
+    for name, tytest, down in (("add_assign", r"ListData::<'v>::is_list_type$", r"ListData::<'v>::from_value_mut$"),
+                               ("bit_or_assign", r"Dict::<'v>::is_dict_type$", r"dict::refs::DictMut::<'v>::from_value$")):
+        f = F.one(r"eval::compiler::stmt::%s$" % name)
+        tt = calls_by_name(f, tytest)
+        dc = calls_by_name(f, down)
+        oks = [st for st in f.stmts if st.kind == "agg adt std::result::Result::Ok" and st.bb not in f.cleanup]
+        if not tt or not dc or not oks:
+            ctx.bad("C04.R2", "inplace:%s:anchor" % name, "anchor-missing: type test / checked downcast / Ok", fn=f)
+            continue
+        from kern import bool_call_edges
+        te = bool_call_edges(F, f, tt[0], "true")
+        arm = set().union(*[f.reach([t]) for (_, t) in te]) if te else set()
+        other = set().union(*[f.reach([t]) for (_, t) in bool_call_edges(F, f, tt[0], "false")])
+        arm_oks = [st for st in oks if st.bb in arm and st.bb not in other]
+        ce = outcome_edges(F, f, dc[0], "Continue") | outcome_edges(F, f, dc[0], "Ok")
+        good = bool(arm_oks) and bool(ce) and all(st.bb not in f.reach(0, cut_edges=ce) for st in arm_oks)
+        ctx.check(good, "C04.R2", "inplace:%s:success-needs-checked-downcast" % name,
+                  "every Ok on the mutable-type arm is dominated by the success edge of the checked downcast",
+                  "`%s` can return Ok for its mutable type without the checked mutable downcast having succeeded: "
+                  "an in-place update of a frozen value (or of a container under iteration) silently succeeds" % name,
+                  fn=f)
+
+
 def r3_unchecked(ctx, F):
     for pat, allowed in ((r"dict::value::Dict::<'v>::from_value_unchecked_mut$", r"InstrComprDictInsert"),
                          (r"list::value::ListData::<'v>::from_value_unchecked_mut$", r"InstrComprListAppend"),
@@ -380,6 +406,7 @@ def run(ctx):
     vb = ValueBearing(F)
     r1_freeze(ctx, F, vb)
     r2_list(ctx, F)
+    r2b_inplace(ctx, F)
     r3_unchecked(ctx, F)
     r4_interior(ctx, F)
     r4_array(ctx, F)
